@@ -450,7 +450,9 @@ class RawAlgorithmsMixIn:
 
         mask = Ellipsis
         while True:
-            mask = numpy.where( abs(y_data[0, mask]) <= 1e-8)
+            # indices of all entries whose leading coefficient still vanishes
+            # (absolute positions, not positions within the previous mask)
+            mask = numpy.where( abs(y_data[0]) <= 1e-8)
 
             if len(mask[0]) == 0:
                 break
